@@ -422,6 +422,7 @@ theorem vecFilterW_agrees (t : Table) (ht : TypedRows t) (u : Unspec) (c : Cond)
       | str s => simp [vecFilter, vecFilterW]
       | bool b => simp [vecFilter, vecFilterW]
       | bytes b => simp [vecFilter, vecFilterW]
+      | json j tx => simp [vecFilter, vecFilterW]
   | ne col v =>
     cases col with
     | id => simp [vecFilter, vecFilterW]
@@ -439,6 +440,7 @@ theorem vecFilterW_agrees (t : Table) (ht : TypedRows t) (u : Unspec) (c : Cond)
       | str s => simp [vecFilter, vecFilterW]
       | bool b => simp [vecFilter, vecFilterW]
       | bytes b => simp [vecFilter, vecFilterW]
+      | json j tx => simp [vecFilter, vecFilterW]
   | rng op col v =>
     cases col with
     | id => cases op <;> cases v <;> simp [vecFilter, vecFilterW]
@@ -473,6 +475,7 @@ theorem vecFilterW_agrees (t : Table) (ht : TypedRows t) (u : Unspec) (c : Cond)
       | str s => cases op <;> simp [vecFilter, vecFilterW]
       | bool b => cases op <;> simp [vecFilter, vecFilterW]
       | bytes b => cases op <;> simp [vecFilter, vecFilterW]
+      | json j tx => cases op <;> simp [vecFilter, vecFilterW]
   | and a b iha ihb =>
     simp only [vecFilter, vecFilterW]
     cases ha : vecFilter t a with
